@@ -10,13 +10,25 @@ RULE = ("K: the constraint systems of the C26 generator (1-8 objects, all five c
         "under-/over-constrained and conflicting systems, uniform and non-uniform grids, tiny max_iter) plus the three witness "
         "families of the defects of the pinned tree (early exit, skipped real position, unknown volume bound); each system is solved by fdtdx.resolve_object_constraints under EVERY "
         "permutation of its constraints when it has <= 4 of them (<= 24 orders, combined with reversed/shuffled object lists) and "
-        "under 8 random constraint orders x object orders otherwise. Oracle (independent of the model): success/failure and "
+        "under 8 random constraint orders x object orders otherwise; a 'staggered' family (2-/3-axis PositionConstraints whose axes "
+        "resolve in different passes through SizeConstraint chains of depth 1-3, dependents left to extension-to-infinity, "
+        "listed in reverse dependency order) is always present: all 24 orders for its 4-constraint members, identity + "
+        "reversed + 12 sampled orders for the 5-6-constraint ones. Oracle (independent of the model): success/failure and "
         "all resolved slices are identical across the orders. Every single run is also compared exactly with the compiled Lean "
         "model run in the same order (raised / flagged objects / all slice bounds). non-trivial = a system with >= 2 "
         "constraints and >= 2 objects under a non-identity order.")
 
 
+def in_scope(sys):
+    """C27 is claimed for runs that are not cut short by max_iter: C27_perm has the explicit escape "the permuted run
+    does not settle within its max_iter", and C27_terminates shows 9 * #objects passes always suffice.  Systems with a
+    smaller max_iter (the generator makes some, to reach the for-else branch) are only compared with the model."""
+    return sys.get("max_iter", 1000) > 9 * len(sys["objects"])
+
+
 def property_fails(sys, ords):
+    if not in_scope(sys):
+        return None
     outs = [((oo, co), pc.run_impl(sys, oo, co)) for oo, co in ords]
     return pc.c27_violation(sys, outs)
 
@@ -32,18 +44,22 @@ def all_orders(sys, cap=720):
 
 def run(ctx):
     n = ctx.scale(55, 900)
+    rng = ctx.rng.fork()          # see c26.run: decorrelates consecutive seeds
     systems = [(pc.witness_early_exit(), {"family": "witness"}), (pc.witness_real_position_skip(), {"family": "witness"}),
            (pc.witness_volume_bound(), {"family": "witness"})]
     for s in pc.small_systems()[1:: ctx.scale(4, 1)]:
         systems.append((s, {"family": "small"}))
+    for s in pc.staggered_systems(rng, n_random=ctx.scale(6, 40)):
+        systems.append((s, {"family": "staggered"}))
+    n += len(systems)
     while len(systems) < n:
-        s, tags = pc.gen_system(ctx.rng, big=ctx.thorough and ctx.rng.chance(0.3))
+        s, tags = pc.gen_system(rng, big=ctx.thorough and rng.chance(0.3))
         tags["family"] = "generated"
         systems.append((s, tags))
     jobs = []
     for s, tags in systems:
         nc, no = len(s["constraints"]), len(s["objects"])
-        ords = pc.orders(s, ctx.rng, max_perm_cons=4, n_random=ctx.scale(4, 8))
+        ords = pc.orders(s, rng, max_perm_cons=4, n_random=ctx.scale(4, 8) if tags["family"] != "staggered" else ctx.scale(12, 40))
         outs = []
         for oo, co in ords:
             out = pc.run_impl(s, oo, co)
@@ -57,7 +73,7 @@ def run(ctx):
                      orders_per_system=len(ords), perturbation=tags.get("perturbation", tags["family"]),
                      all_permutations=nc <= 4)
         ctx.impl_property_evals += 1
-        d = pc.c27_disagreement(outs)
+        d = pc.c27_disagreement(outs) if in_scope(s) else None
         if d:
             if not ctx.violations:                      # shrink the first one only
                 _report(ctx, s, ords)
@@ -69,6 +85,8 @@ def run(ctx):
 # ------------------------------------------------------------------------------------------- S
 def _report(ctx, s, ords):
     """shrink (fewer constraints / objects, same relative orders) and report"""
+    if not in_scope(s):
+        return False
     outs = [((oo, co), pc.run_impl(s, oo, co)) for oo, co in ords]
     d = pc.c27_disagreement(outs)
     if d is None:
@@ -78,7 +96,8 @@ def _report(ctx, s, ords):
         c, [(list(range(len(c["objects"]))), list(range(len(c["constraints"])))), (o2, c2)]))
     if res is not None:
         small, pair = res
-        ctx.violation({"sys": small, "orders": [[list(o), list(c)] for o, c in pair]}, property_fails(small, pair))
+        detail2 = property_fails(small, pair)
+        ctx.violation({"sys": pc.json_copy(small), "orders": [[list(o), list(c)] for o, c in pair]}, detail2)
     else:
         ctx.violation({"sys": pc.strip(s), "orders": [[list(a[0]), list(a[1])], [list(b[0]), list(b[1])]]}, detail)
     return True
@@ -87,7 +106,7 @@ def _report(ctx, s, ords):
 def search(ctx, hints):
     for h in hints[:40]:
         if isinstance(h, dict) and "sys" in h:
-            s = h["sys"]
+            s = pc.json_copy(h["sys"])           # a copy: running it caches built objects on the dict
             ctx.impl_property_evals += 1
             if _report(ctx, s, all_orders(s, cap=120)):
                 return
